@@ -409,11 +409,11 @@ func (d dissecting) Represent(request map[string]interface{}, response map[strin
 	case connectionMethodMap[41]:
 		repResponse = representEmpty(response)
 	case channelMethodMap[11]:
-		repResponse = representEmpty(request)
+		repResponse = representEmpty(response)
 	case connectionMethodMap[31]:
-		repResponse = representConnectionTune(request)
+		repResponse = representConnectionTune(response)
 	case basicMethodMap[31]:
-		repResponse = representBasicCancelOk(request)
+		repResponse = representBasicCancelOk(response)
 	case emptyMethod:
 		repResponse = representEmpty(response)
 	}
